@@ -237,11 +237,14 @@ def run(ctx, rep) -> None:
         ok = _norm(A.keyword(urot[0], "dims")) in ("<none>", "([0], [0])") and _norm(A.keyword(urot[0], "preconditioned_dims_selector")) == _norm(A.keyword(rots[0], "preconditioned_dims_selector"))
         rep.ob("C03.2", "accumulator-rotates-forward", ok, uec.loc(urot[0]), "the accumulator update uses the forward rotation with the block's dims selector")
     pg = repo.func(f"{BASE}._precondition_grad")
-    lam = [n for n in ast.walk(pg.node) if isinstance(n, ast.Lambda)]
+    fs = A.folds(repo, pg.module, pg.node)
     ok = False
-    if len(lam) == 1 and isinstance(lam[0].body, ast.IfExp):
-        b = lam[0].body
-        ok = isinstance(b.test, ast.Name) and b.test.id == lam[0].args.args[1].arg and "tensordot" in _norm(b.body) and "tensordot" not in _norm(b.orelse) and "permute" in _norm(b.orelse) and "next(" in _norm(b.body) and "next(" not in _norm(b.orelse)
+    if len(fs) == 1:
+        st = ast.parse(fs[0].step.replace("$acc", "ACC__").replace("$0", "SEL__"), mode="eval").body
+        if isinstance(st, ast.IfExp):
+            pos, neg = (st.body, st.orelse) if _norm(st.test) == "SEL__" else ((st.orelse, st.body) if _norm(st.test) == "not SEL__" else (None, None))
+            ok = pos is not None and "tensordot" in _norm(pos) and "tensordot" not in _norm(neg) and "permute" in _norm(neg) and "next(" in _norm(pos) and "next(" not in _norm(neg) and "ACC__" in _norm(pos) and "ACC__" in _norm(neg)
+            ok = ok and _norm(fs[0].iter) == "preconditioned_dims_selector" and A.expanded(pg.node, fs[0].init) == pg.params[1 if pg.params and pg.params[0] in ("self", "cls") else 0]
     rep.ob("C03.2", "ignored-dims-only-permuted", ok, pg.loc(), "in _precondition_grad a non-selected dimension is rotated to the back without contraction and without consuming a preconditioner", sample=True)
     # ---- C03.3
     rep.attempt("_amortized_guard", _amortized_guard, ctx, _Proxy(rep, "C01.3", "C03.3"))
